@@ -102,6 +102,14 @@ func (s *Service) VerifConnIDs() []string {
 	return ids
 }
 
+// VerifHasConn reports whether a connection with that id is registered.
+func (s *Service) VerifHasConn(cid string) bool {
+	s.mu.Lock()
+	defer s.mu.Unlock()
+	_, ok := s.conns[cid]
+	return ok
+}
+
 // VerifSubSnap is a snapshot of one Subscription of a connection.
 type VerifSubSnap struct {
 	RID          string
